@@ -20,6 +20,36 @@ def bigFuel : Nat := 1000000
 def checkWF (A : ENFA Nat) : R Unit :=
   if decide A.WF then pure () else throw "automaton not well-formed (states/symbols not covering)"
 
+/-- the trash state's name: "TrashNode", "TrashNode0", "TrashNode1", … first one not in use -/
+def freshTrash (used : List String) : String :=
+  if "TrashNode" ∉ used then "TrashNode" else
+    match (List.range (used.length + 1)).find? (fun i => s!"TrashNode{i}" ∉ used) with
+    | some i => s!"TrashNode{i}"
+    | none => "TrashNode?"
+
+/-- `get_complement` after the repairs: determinise first unless deterministic with a start state;
+fresh trash name. Left = original states (Nat codes; `trash` is a fresh code), right = merged names.
+Also returns the trash state's name. -/
+def complementModel (A : ENFA Nat) (cls : String) (names : Nat → String) (trash : Nat) :
+    R (Bool × ENFA (Nat ⊕ String) × String) := do
+  let det := match cls with
+    | "D" => true
+    | "N" => A.isDeterministicN
+    | _ => A.isDeterministicE
+  if !A.starts.isEmpty && det then
+    let C := if cls == "D" then A.copyD else A.copyE
+    pure (true, (A.complementRaw C trash).mapStates Sum.inl, freshTrash (A.states.map names))
+  else match A.toDet (mergeName names) true bigFuel with
+    | none => throw "fuel"
+    | some D =>
+      let D' := D.addSyms A.syms
+      let t := freshTrash D'.states
+      pure (false, (D'.complementRaw D'.copyD t).mapStates Sum.inr, t)
+
+def jSum : Nat ⊕ String → Json
+  | .inl n => jNat n
+  | .inr s => jStr s
+
 def faHandle (op : String) (j : Json) : R Json := do
   match op with
   | "fa.accepts" =>
@@ -68,6 +98,29 @@ def faHandle (op : String) (j : Json) : R Json := do
     let cls ← asStr (← field j "cls")
     let trash ← asNat (← field j "trash")
     pure (jENFA jNat (A.complementRaw (if cls == "D" then A.copyD else A.copyE) trash))
+  | "fa.complement" =>
+    let A ← asENFA (← field j "A")
+    let cls ← asStr (← field j "cls")
+    let names ← asStrList (← field j "names")
+    let trash ← asNat (← field j "trash")
+    let (det, C, t) ← complementModel A cls (nameFn names) trash
+    pure (Json.mkObj [("det", jBool det), ("fa", jENFA jSum C), ("trashName", jStr t)])
+  | "fa.difference" =>
+    let A ← asENFA (← field j "A")
+    let B ← asENFA (← field j "B")
+    let clsB ← asStr (← field j "clsB")
+    let na ← asStrList (← field j "namesA")
+    let nb ← asStrList (← field j "namesB")
+    let trash ← asNat (← field j "trash")
+    let B' := ((if clsB == "D" then B.copyD else B.copyE).addSyms A.syms)
+    let (_, C, t) ← complementModel B' (if clsB == "D" then "D" else "E") (nameFn nb) trash
+    let nc : Nat ⊕ String → String := fun x => match x with
+      | .inl n => if n == trash then t else nameFn nb n
+      | .inr s => s
+    match A.inter C bigFuel with
+    | none => throw "fuel"
+    | some P => pure (jENFA jStr (P.mapStates fun p =>
+        String.ofList (Names.pairName (fun q => (nameFn na q).toList) (fun q => (nc q).toList) p)))
   | "fa.preds" =>
     let A ← asENFA (← field j "A")
     pure (Json.mkObj [("isEmpty", jBool A.isEmpty), ("isDetE", jBool A.isDeterministicE),
@@ -87,6 +140,38 @@ def faHandle (op : String) (j : Json) : R Json := do
     match A.langDiff B bigFuel with
     | none => throw "fuel"
     | some r => pure (Json.mkObj [("equiv", jBool r.isNone), ("word", jOpt jNatList r)])
+  | "fa.langop" =>   -- oracle: R against the reference construction for `kind`
+    let kind ← asStr (← field j "kind")
+    let A ← asENFA (← field j "A")
+    let Rr ← asENFA (← field j "R")
+    checkWF A; checkWF Rr
+    let B ← (match j.getObjVal? "B" with
+      | .ok b => asENFA b
+      | .error _ => pure { states := [], syms := [], starts := [], finals := [], delta := [] })
+    checkWF B
+    let fresh (X : ENFA Nat) : List Nat := [X.states.foldl max 0 + 1]
+    let res (r : Option (Option (List Nat))) : R Json := match r with
+      | none => throw "fuel"
+      | some r => pure (Json.mkObj [("equiv", jBool r.isNone), ("word", jOpt jNatList r)])
+    match kind with
+    | "inter" => match A.inter B bigFuel with
+      | none => throw "fuel"
+      | some P => res (Rr.langDiff P bigFuel)
+    | "complement" => match A.complementRef (fresh A) bigFuel with
+      | none => throw "fuel"
+      | some C => res (Rr.langDiff C bigFuel)
+    | "difference" =>
+      let B' := B.addSyms A.syms
+      match B'.complementRef (fresh B') bigFuel with
+      | none => throw "fuel"
+      | some C => match A.inter C bigFuel with
+        | none => throw "fuel"
+        | some P => res (Rr.langDiff P bigFuel)
+    | "reverse" => res (Rr.langDiff A.reverse bigFuel)
+    | "union" => res (Rr.langDiff (A.unionA B) bigFuel)
+    | "concat" => res (Rr.langDiff (A.concatA B) bigFuel)
+    | "star" => res (Rr.langDiff A.starA bigFuel)
+    | _ => throw s!"unknown langop {kind}"
   | "fa.langUpTo" =>   -- oracle
     let A ← asENFA (← field j "A")
     checkWF A
